@@ -266,6 +266,29 @@ static int set_curve(const char *spec) {
 		VH_TRY(err, ep_param_set(id));
 		code = vh_code();
 		cur_ok = (err == 0) && (code == 0);
+#ifdef WITH_ED
+	} else if (strcmp(spec, "ed") == 0) {
+		/* the build's Edwards curve (sets the prime field as well) */
+		volatile int r = RLC_ERR;
+		int code;
+		VH_TRY(err, r = ed_param_set_any());
+		code = vh_code();
+		if ((err == 0) && (code == 0) && (r == RLC_OK)) {
+			/* the generic part below needs a prime curve too: none is required for ed ops */
+			strcpy(cur_curve, spec);
+			cur_ok = 1;
+			return 1;
+		}
+#endif
+#if defined(WITH_EPX) && defined(WITH_PP)
+	} else if (strcmp(spec, "pf") == 0) {
+		/* the build's pairing-friendly curve with its sextic twist (G2) configured */
+		volatile int r = RLC_ERR;
+		int code;
+		VH_TRY(err, r = ep_param_set_any_pairf());
+		code = vh_code();
+		cur_ok = (err == 0) && (code == 0) && (r == RLC_OK) && ep2_curve_is_twist();
+#endif
 	} else if (spec[0] == 't' && spec[1] == ':') {
 		static char tmp[8192];
 		strcpy(tmp, spec);
@@ -282,6 +305,7 @@ static int set_curve(const char *spec) {
 static void fhdr(void) {
 	vh_fp_hdr();
 	vh_int("fb", (long)RLC_FP_BYTES); vh_int("digs", (long)RLC_BN_DIGS);
+	vh_int("qnr", (long)fp_prime_get_qnr());
 }
 static void chdr(void) {
 	fhdr();
@@ -290,6 +314,9 @@ static void chdr(void) {
 	vh_int("pairf", ep_curve_is_pairf() ? 1 : 0);
 }
 
+#if defined(WITH_EPX) && defined(WITH_PP)
+static void fp2_raw(fp2_t a);
+#endif
 /* input discovery for the generator: is the curve selectable, and its parameters */
 static void do_probe(void) {
 	int ok;
@@ -301,6 +328,9 @@ static void do_probe(void) {
 	if (ok) {
 		chdr();
 		vh_ep("G", G); vh_bn("n", N); vh_bn("h", H);
+#if defined(WITH_EPX) && defined(WITH_PP)
+		if (strcmp(vh_tok[1], "pf") == 0) { fputs(",\"b2\":", vh_out); fp2_raw(ep2_curve_get_b()); }
+#endif
 		vh_int("bndigs", (long)RLC_BN_DIGS); vh_int("bncap", (long)RLC_BN_SIZE);
 #ifdef WITH_PP
 		vh_int("pp", 1);
@@ -407,20 +437,22 @@ static void do_fp2_read_bin(void) {
 	fhdr(); vh_bytes("in", in, len); vh_int("deg", 2); MARK();
 	CALL(err, fp2_read_bin(F2C, in, len));
 	fp2_log("c", F2C);
-	if (!err) { VH_TRY(rerr, fp2_write_bin(g.p, len, F2C, 0)); }
+	if (!err) { VH_TRY(rerr, fp2_write_bin(g.p, len, F2C, len == RLC_FP_BYTES + 1)); }
 	vh_int("rerr", rerr); gb_log("re", &g);
 	fin(err);
 	gb_free(&g); free(in);
 }
+/* fp2_write_bin <curve> <v0>,<v1> <len> [pack] */
 static void do_fp2_write_bin(void) {
 	int err; long len = atol(vh_tok[3]); gbuf_t g;
+	int pack = vh_ntok > 4 ? atoi(vh_tok[4]) : 0;
 	fp_t *d[2] = { &F2A[0], &F2A[1] };
 	fpx_set(d, 2, vh_tok[2]);
 	gb_new(&g, (size_t)len);
 	ev_begin("fp2_write_bin");
-	fhdr(); fp2_log("a", F2A); vh_int("len", len); vh_int("deg", 2);
-	vh_int("size", (long)fp2_size_bin(F2A, 0)); MARK();
-	CALL(err, fp2_write_bin(g.p, (size_t)len, F2A, 0));
+	fhdr(); fp2_log("a", F2A); vh_int("len", len); vh_int("deg", 2); vh_int("pack", pack);
+	vh_int("size", (long)fp2_size_bin(F2A, pack)); MARK();
+	CALL(err, fp2_write_bin(g.p, (size_t)len, F2A, pack));
 	gb_log("out", &g);
 	fin(err);
 	gb_free(&g);
@@ -445,7 +477,7 @@ static void do_fp12_write_bin(void) {
 	fpx_set(d, 12, vh_tok[2]);
 	gb_new(&g, (size_t)len);
 	ev_begin("fp12_write_bin");
-	fhdr(); fp12_log("a", F12A); vh_int("len", len); vh_int("deg", 12);
+	fhdr(); fp12_log("a", F12A); vh_int("len", len); vh_int("deg", 12); vh_int("pack", 0);
 	vh_int("size", (long)fp12_size_bin(F12A, 0)); MARK();
 	CALL(err, fp12_write_bin(g.p, (size_t)len, F12A, 0));
 	gb_log("out", &g);
@@ -537,6 +569,167 @@ static void do_ep_upk(void) {
 }
 #endif /* WITH_EP */
 
+/* ------------------------------------------------------------ points of the twist over F_p^2 (G2) */
+#if defined(WITH_EPX) && defined(WITH_PP)
+static ep2_t P2, R2;
+static void fp2_raw(fp2_t a) { fputc('[', vh_out); vh_fp_raw(a[0]); fputc(',', vh_out); vh_fp_raw(a[1]); fputc(']', vh_out); }
+static void ep2_log(const char *k, ep2_t p) {
+	fprintf(vh_out, ",\"%s\":{\"x\":", k); fp2_raw(p->x);
+	fputs(",\"y\":", vh_out); fp2_raw(p->y);
+	fputs(",\"z\":", vh_out); fp2_raw(p->z);
+	fprintf(vh_out, ",\"c\":%d}", p->coord);
+}
+static void c2hdr(void) {
+	fhdr();
+	fputs(",\"a2\":", vh_out); fp2_raw(ep2_curve_get_a());
+	fputs(",\"b2\":", vh_out); fp2_raw(ep2_curve_get_b());
+}
+/* inf | m<k> [k]G2 normalised | d<k> 2[k]G2 left in projective coordinates | x<x0>,<x1>,<y0>,<y1> affine VALUES */
+static void set_point2(ep2_t p, char *tok) {
+	if (strcmp(tok, "inf") == 0) { ep2_set_infty(p); return; }
+	if (tok[0] == 'm' || tok[0] == 'd') {
+		ep2_t g; ep2_null(g); ep2_new(g);
+		ep2_curve_get_gen(g);
+		vh_bn_set(T, tok + 1);
+		ep2_mul_basic(p, g, T);
+		ep2_norm(p, p);
+		if (tok[0] == 'd') ep2_dbl_projc(p, p);
+		ep2_free(g);
+		return;
+	}
+	{
+		fp_t *d[4] = { &p->x[0], &p->x[1], &p->y[0], &p->y[1] };
+		fpx_set(d, 4, tok + 1);
+		fp_set_dig(p->z[0], 1); fp_zero(p->z[1]); p->coord = BASIC;
+	}
+}
+static void do_ep2_size_bin(void) {
+	int err; volatile long sz = -1; long pack = atol(vh_tok[3]);
+	set_point2(P2, vh_tok[2]);
+	ev_begin("ep2_size_bin");
+	c2hdr(); ep2_log("P", P2); vh_int("pack", pack); MARK();
+	CALL(err, sz = (long)ep2_size_bin(P2, (int)pack));
+	vh_int("size", sz);
+	fin(err);
+}
+static void do_ep2_write_bin(void) {
+	int err; long pack = atol(vh_tok[3]), len = atol(vh_tok[4]); gbuf_t g;
+	set_point2(P2, vh_tok[2]);
+	gb_new(&g, (size_t)len);
+	ev_begin("ep2_write_bin");
+	c2hdr(); ep2_log("P", P2); vh_int("pack", pack); vh_int("len", len);
+	vh_int("size", (long)ep2_size_bin(P2, (int)pack)); MARK();
+	CALL(err, ep2_write_bin(g.p, (size_t)len, P2, (int)pack));
+	gb_log("out", &g);
+	fin(err);
+	gb_free(&g);
+}
+static void do_ep2_read_bin(void) {
+	int err, rerr = 0; size_t len; uint8_t *in = in_bytes(vh_tok[2], &len); gbuf_t g;
+	int pack = len > 0 && (in[0] == 2 || in[0] == 3);
+	ep2_curve_get_gen(R2);
+	gb_new(&g, len);
+	ev_begin("ep2_read_bin");
+	c2hdr(); vh_bytes("in", in, len); MARK();
+	CALL(err, ep2_read_bin(R2, in, len));
+	ep2_log("R", R2);
+	if (!err) { VH_TRY(rerr, ep2_write_bin(g.p, len, R2, pack)); }
+	vh_int("rerr", rerr); gb_log("re", &g);
+	fin(err);
+	gb_free(&g); free(in);
+}
+#endif
+
+/* ------------------------------------------------------------ Edwards points */
+#ifdef WITH_ED
+static ed_t EP1, ER1;
+static void ed_log(const char *k, ed_t p) {
+	fprintf(vh_out, ",\"%s\":{\"x\":", k); vh_fp_raw(p->x);
+	fputs(",\"y\":", vh_out); vh_fp_raw(p->y);
+	fputs(",\"z\":", vh_out); vh_fp_raw(p->z);
+	fprintf(vh_out, ",\"c\":%d}", p->coord);
+}
+static void ehdr(void) {
+	fhdr();
+	vh_fp("ea", core_get()->ed_a);
+	vh_fp("ed", core_get()->ed_d);
+}
+/* inf | m<k> [k]G normalised | d<k> 2[k]G not normalised | <x>,<y> affine VALUES */
+static void set_pointe(ed_t p, char *tok) {
+	if (strcmp(tok, "inf") == 0) { ed_set_infty(p); return; }
+	if (tok[0] == 'm' || tok[0] == 'd') {
+		ed_t g; ed_null(g); ed_new(g);
+		ed_curve_get_gen(g);
+		vh_bn_set(T, tok + 1);
+		ed_mul_basic(p, g, T);
+		ed_norm(p, p);
+		if (tok[0] == 'd') ed_dbl(p, p);
+		ed_free(g);
+		return;
+	}
+	{
+		char *y = strchr(tok, ',');
+		*y++ = 0;
+		vh_fp_set(p->x, tok); vh_fp_set(p->y, y);
+		fp_set_dig(p->z, 1);
+		fp_mul(p->t, p->x, p->y);
+		p->coord = BASIC;
+	}
+}
+static void do_ed_probe(void) {
+	int ok;
+	cur_curve[0] = 0;
+	ok = set_curve("ed");
+	ev_begin("curve_probe");
+	vh_str("curve", "ed");
+	vh_int("ok", ok);
+	if (ok) {
+		ed_t g; ed_null(g); ed_new(g);
+		ehdr();
+		ed_curve_get_gen(g); ed_norm(g, g); ed_log("G", g);
+		ed_curve_get_ord(N); vh_bn("n", N);
+		ed_free(g);
+	}
+	vh_int("err", 0); vh_int("code", 0);
+	ev_end();
+}
+static void do_ed_size_bin(void) {
+	int err; volatile long sz = -1; long pack = atol(vh_tok[3]);
+	set_pointe(EP1, vh_tok[2]);
+	ev_begin("ed_size_bin");
+	ehdr(); ed_log("P", EP1); vh_int("pack", pack); MARK();
+	CALL(err, sz = (long)ed_size_bin(EP1, (int)pack));
+	vh_int("size", sz);
+	fin(err);
+}
+static void do_ed_write_bin(void) {
+	int err; long pack = atol(vh_tok[3]), len = atol(vh_tok[4]); gbuf_t g;
+	set_pointe(EP1, vh_tok[2]);
+	gb_new(&g, (size_t)len);
+	ev_begin("ed_write_bin");
+	ehdr(); ed_log("P", EP1); vh_int("pack", pack); vh_int("len", len);
+	vh_int("size", (long)ed_size_bin(EP1, (int)pack)); MARK();
+	CALL(err, ed_write_bin(g.p, (size_t)len, EP1, (int)pack));
+	gb_log("out", &g);
+	fin(err);
+	gb_free(&g);
+}
+static void do_ed_read_bin(void) {
+	int err, rerr = 0; size_t len; uint8_t *in = in_bytes(vh_tok[2], &len); gbuf_t g;
+	int pack = len > 0 && (in[0] == 2 || in[0] == 3);
+	ed_curve_get_gen(ER1);
+	gb_new(&g, len);
+	ev_begin("ed_read_bin");
+	ehdr(); vh_bytes("in", in, len); MARK();
+	CALL(err, ed_read_bin(ER1, in, len));
+	ed_log("R", ER1);
+	if (!err) { VH_TRY(rerr, ed_write_bin(g.p, len, ER1, pack)); }
+	vh_int("rerr", rerr); gb_log("re", &g);
+	fin(err);
+	gb_free(&g); free(in);
+}
+#endif
+
 static int run_case(void) {
 	const char *op = vh_tok[0];
 #define OP(n) (strcmp(op, n) == 0)
@@ -549,6 +742,9 @@ static int run_case(void) {
 	if (OP("bn_write_str")) { do_bn_write_str(); return 1; }
 	if (OP("bn_read_str")) { do_bn_read_str(); return 1; }
 #ifdef WITH_EP
+#ifdef WITH_ED
+	if (OP("curve_probe") && vh_ntok > 1 && strcmp(vh_tok[1], "ed") == 0) { do_ed_probe(); return 1; }
+#endif
 	if (OP("curve_probe")) { do_probe(); return 1; }
 	if (vh_ntok < 2 || !set_curve(vh_tok[1])) {
 		ev_begin("BADCURVE"); vh_str("curve", vh_ntok > 1 ? vh_tok[1] : ""); ev_end();
@@ -564,6 +760,16 @@ static int run_case(void) {
 	else if (OP("fp2_write_bin")) do_fp2_write_bin();
 	else if (OP("fp12_read_bin")) do_fp12_read_bin();
 	else if (OP("fp12_write_bin")) do_fp12_write_bin();
+#endif
+#if defined(WITH_EPX) && defined(WITH_PP)
+	else if (OP("ep2_size_bin")) do_ep2_size_bin();
+	else if (OP("ep2_write_bin")) do_ep2_write_bin();
+	else if (OP("ep2_read_bin")) do_ep2_read_bin();
+#endif
+#ifdef WITH_ED
+	else if (OP("ed_size_bin")) do_ed_size_bin();
+	else if (OP("ed_write_bin")) do_ed_write_bin();
+	else if (OP("ed_read_bin")) do_ed_read_bin();
 #endif
 	else if (OP("ep_size_bin")) do_ep_size_bin();
 	else if (OP("ep_write_bin")) do_ep_write_bin();
@@ -592,6 +798,12 @@ int main(int argc, char **argv) {
 #ifdef WITH_FPX
 	fp2_null(F2A); fp2_null(F2C); fp2_new(F2A); fp2_new(F2C);
 	fp12_null(F12A); fp12_null(F12C); fp12_new(F12A); fp12_new(F12C);
+#endif
+#if defined(WITH_EPX) && defined(WITH_PP)
+	ep2_null(P2); ep2_null(R2); ep2_new(P2); ep2_new(R2);
+#endif
+#ifdef WITH_ED
+	ed_null(EP1); ed_null(ER1); ed_new(EP1); ed_new(ER1);
 #endif
 #endif
 	while (vh_next(in)) {
